@@ -17,6 +17,9 @@ ObsNorm(o) == CASE o.k = "state" -> [k |-> "state", v |-> o.v, a |-> Pairs(o.a),
                 [] o.k = "names" -> [k |-> "names", s |-> { o.s[i] : i \in 1..Len(o.s) }]
                 [] OTHER -> o
 Same(o, r) == o.k = r.k /\ o = r
+\* the statement fixes NameError/AttributeError for reads only: a failing delete may raise anything (or nothing)
+ResultOk(op, o, r) == IF op.k \in {"del", "delete", "delattr", "deleteattr"} /\ r.k = "exc" THEN o.k \in {"exc", "none"}
+                      ELSE Same(o, r)
 ResolutionOf(w, op) == IF op.k \in {"names", "checksnap", "bindvar", "unbindvar"} THEN "-"
                        ELSE IF op.k \in {"localread", "localassign", "localdel"} THEN "local" ELSE Resolve(w, op.e)
 
@@ -26,7 +29,7 @@ Run(c, w, i) ==
   ELSE LET op == c.ops[i] IN
        IF ~Specified(w, op) THEN [ok |-> FALSE, at |-> i, why |-> "unspecified-op-generated", k |-> op.k, res |-> ResolutionOf(w, op)]
        ELSE LET r == Apply(w, op, i) IN
-            IF ~Same(ObsNorm(op.obs), r.r) THEN [ok |-> FALSE, at |-> i, why |-> "result", k |-> op.k, res |-> ResolutionOf(w, op)]
+            IF ~ResultOk(op, ObsNorm(op.obs), r.r) THEN [ok |-> FALSE, at |-> i, why |-> "result", k |-> op.k, res |-> ResolutionOf(w, op)]
             ELSE IF HassNorm(op.hass) # r.w.h THEN [ok |-> FALSE, at |-> i, why |-> "hass", k |-> op.k, res |-> ResolutionOf(w, op)]
             ELSE Run(c, r.w, i + 1)
 
